@@ -134,8 +134,13 @@ def _params(base_params, tr):
     if "func_rename" in tr:
         for old, new in tr["func_rename"].items():
             p[new] = p.pop(old)
-    if "shock_rename" in tr and "shocks" in p:
-        p["shocks"] = {tr["shock_rename"].get(k, k): v for k, v in p["shocks"].items()}
+    if "shock_rename" in tr:
+        # transition functions are named after their state: next_<old> -> next_<new>
+        for old, new in tr["shock_rename"].items():
+            if f"next_{old}" in p:
+                p[f"next_{new}"] = p.pop(f"next_{old}")
+        if "shocks" in p:
+            p["shocks"] = {tr["shock_rename"].get(k, k): v for k, v in p["shocks"].items()}
     return p
 
 
